@@ -66,11 +66,15 @@ def run(tier):
                     if spd <= (1 << 30) and max(sdf, 10) and spd // max(sdf, 10) > 200000:
                         continue
                     tab = []
+                    # the same rules hold for every signal type (the format's signal 0 is a VSR signal): one row in
+                    # seven is fed as a VSR definition
+                    st = 1 if rng.random() < 0.15 else 0
                     for eps in inputs:
                         for sumdf in inputs:
                             if rng.random() < (0.6 if thorough else 0.55) and not (eps in EXTRA or sumdf in EXTRA):
                                 continue
                             d = J.SignalDef()
+                            d.signal_type = st
                             d.data_type = J.dt_code(dt)
                             d.samples_per_data, d.sample_decimate_factor, d.entries_per_summary, d.summary_decimate_factor = spd, sdf, eps, sumdf
                             cur.seek(0)
@@ -84,7 +88,7 @@ def run(tier):
                     if tab:
                         x += 1
                         npts += len(tab)
-                        f.write(json.dumps({"e": "SigDefRow", "x": x, "w": w, "dt": dt, "spd": clip(spd), "sdf": clip(sdf), "tab": tab}, separators=(",", ":")) + "\n")
+                        f.write(json.dumps({"e": "SigDefRow", "x": x, "w": w, "dt": dt, "st": st, "spd": clip(spd), "sdf": clip(sdf), "tab": tab}, separators=(",", ":")) + "\n")
                         f.flush()
 
     status = C.isolated(feed, timeout=1500)
@@ -106,7 +110,7 @@ def run(tier):
         ev = json.loads(lines[line - 1])
         why, _, idx = why.partition(" @")
         point = ev["tab"][int(idx) - 1] if idx else []
-        descr = {"where": "implementation", "reason": why, "w": ev["w"], "spd": ev["spd"], "sdf": ev["sdf"],
+        descr = {"where": "implementation", "reason": why, "w": ev["w"], "signal_type": ev.get("st", 0), "spd": ev["spd"], "sdf": ev["sdf"],
                  "class": "width-24" if ev["w"] == 24 else "", "point_eps_sumdf_rc_out_rc2_again": point}
         ck.violation(descr)
     ck.cov["traces_validated_against_impl"] = x - len(v.rejections)
